@@ -39,6 +39,8 @@ pub struct Encoding {
     pub sh0_size: u64,
     pub sh0_info: u64,
     pub sh0_link: u64,
+    /// sh_type and sh_flags written into section header 0 (0 for the usual null section)
+    pub sh0_type: u64,
 }
 pub fn reference_encoding(nsec: u64, nph: u64, strndx: u64) -> Encoding {
     Encoding {
@@ -48,6 +50,7 @@ pub fn reference_encoding(nsec: u64, nph: u64, strndx: u64) -> Encoding {
         sh0_size: if nsec >= 0xff00 { nsec } else { 0 },
         sh0_info: if nph >= 0xffff { nph } else { 0 },
         sh0_link: if strndx >= 0xff00 { strndx } else { 0 },
+        sh0_type: 0,
     }
 }
 
@@ -99,7 +102,7 @@ pub fn make(enc: rl::Enc, nsec: u64, nph: u64, strndx: u64, place: Placement, e:
         let is_str = i == strndx && i != 0;
         let mut v = vec![if is_str { 1 } else { 7 }, if i == 0 { 0 } else if is_str { 3 } else { 1 }, 0, 0xA000_0000 + i, data_off, if is_str { strtab.len() as u64 } else { 4 }, 0, 0, 1, 0];
         if i == 0 {
-            v = vec![0, 0, 0, 0xA000_0000, 0, e.sh0_size, e.sh0_link, e.sh0_info, 0, 0];
+            v = vec![if e.sh0_type != 0 { 1 } else { 0 }, e.sh0_type, if e.sh0_type != 0 { 2 } else { 0 }, 0xA000_0000, 0, e.sh0_size, e.sh0_link, e.sh0_info, 0, 0];
         }
         b[off..off + shs as usize].copy_from_slice(&encode(Kind::Shdr, enc, &v, 0));
     }
@@ -293,12 +296,12 @@ struct Numbering {
 impl Numbering {
     fn dims() -> [u64; 6] {
         // enc, nsec, nph, placement, strndx choice, encoding variant
-        [4, 10, 7, 4, 4, 7]
+        [4, 10, 7, 4, 4, 8]
     }
 }
 impl Space for Numbering {
     fn name(&self) -> String {
-        "generated files: section count in {0,1,2,3,0xfeff,0xff00,0xff01,0xff20,0x10000,0x10010} x program header count in {0,1,2,0xfffe,0xffff,0x10000,0x10010} x table placement {ph-then-sh, sh-then-ph, sh touching EOF, sh one byte past EOF} x name-table index {0,1,n-1,beyond} x header encoding {reference writer, e_shnum=0 forced, PN_XNUM forced, SHN_XINDEX forced, shdr[0] fields zeroed, shdr[0] fields off by one, raw e_shstrndx in the reserved range with a different shdr[0].sh_link} x 4 encodings; both parsers".into()
+        "generated files: section count in {0,1,2,3,0xfeff,0xff00,0xff01,0xff20,0x10000,0x10010} x program header count in {0,1,2,0xfffe,0xffff,0x10000,0x10010} x table placement {ph-then-sh, sh-then-ph, sh touching EOF, sh one byte past EOF} x name-table index {0,1,n-1,beyond} x header encoding {reference writer, e_shnum=0 forced, PN_XNUM forced, SHN_XINDEX forced, shdr[0] fields zeroed, shdr[0] fields off by one, raw e_shstrndx in the reserved range with a different shdr[0].sh_link, header 0 carrying a type / name / flags} x 4 encodings; both parsers".into()
     }
     fn size(&self) -> u64 {
         product(&Self::dims())
@@ -346,6 +349,11 @@ impl Space for Numbering {
                 e.sh0_size = 0;
                 e.sh0_info = 0;
                 e.sh0_link = 0;
+            }
+            7 => {
+                // header 0 is not a null section (it has a type, a name and flags): the escapes read
+                // its sh_size / sh_info / sh_link all the same
+                e.sh0_type = 1;
             }
             6 => {
                 // the raw index is written even when it lies in the reserved range 0xff00..=0xfffe
